@@ -32,9 +32,10 @@ import (
 const shimPath = "github.com/libsv/go-bt/v2/zzverif/vsync"
 
 type tracked struct {
-	structs map[string]map[string]bool // struct name -> guarded field names
-	pkgVars map[string]bool
-	engine  string // struct name whose every field is tracked (interpreter)
+	refFields map[string]bool            // "Struct.field" whose type is a map, slice, pointer or channel (aliasable)
+	structs   map[string]map[string]bool // struct name -> guarded field names
+	pkgVars   map[string]bool
+	engine    string // struct name whose every field is tracked (interpreter)
 }
 
 func main() {
@@ -65,7 +66,7 @@ func main() {
 	// ---- interpreter package: engine fields and package-level variables
 	idir := filepath.Join(repo, "bscript", "interpreter")
 	files, _ := filepath.Glob(filepath.Join(idir, "*.go"))
-	tr := &tracked{structs: map[string]map[string]bool{}, pkgVars: map[string]bool{}, engine: "engine"}
+	tr := &tracked{structs: map[string]map[string]bool{}, pkgVars: map[string]bool{}, engine: "engine", refFields: map[string]bool{}}
 	fset := token.NewFileSet()
 	var parsed []*ast.File
 	var names []string
@@ -141,7 +142,7 @@ func instrumentFile(path string, swapSync bool, tr *tracked) ([]byte, int, error
 		return nil, 0, err
 	}
 	if tr == nil {
-		tr = &tracked{structs: map[string]map[string]bool{}, pkgVars: map[string]bool{}}
+		tr = &tracked{structs: map[string]map[string]bool{}, pkgVars: map[string]bool{}, refFields: map[string]bool{}}
 		// every struct that holds a sync mutex: all its other fields are guarded
 		for _, d := range af.Decls {
 			gd, ok := d.(*ast.GenDecl)
@@ -172,6 +173,14 @@ func instrumentFile(path string, swapSync bool, tr *tracked) ([]byte, int, error
 					}
 					for _, id := range fl.Names {
 						fields[id.Name] = true
+						switch t := fl.Type.(type) {
+						case *ast.MapType, *ast.StarExpr, *ast.ChanType:
+							tr.refFields[ts.Name.Name+"."+id.Name] = true
+						case *ast.ArrayType:
+							if t.Len == nil {
+								tr.refFields[ts.Name.Name+"."+id.Name] = true
+							}
+						}
 					}
 				}
 				if hasMu {
@@ -256,6 +265,9 @@ func instrumentAST(fset *token.FileSet, af *ast.File, tr *tracked, shimAsSync bo
 				}
 			}
 		}
+		// aliases: local variables bound to a tracked reference-typed field (fees := f.fees);
+		// using the local later is an access to the same location
+		aliases := map[string]probe{}
 		locals := map[string]bool{}
 		if fd.Type.Params != nil {
 			for _, p := range fd.Type.Params.List {
@@ -277,6 +289,18 @@ func instrumentAST(fset *token.FileSet, af *ast.File, tr *tracked, shimAsSync bo
 				}
 			}
 			writes := map[ast.Expr]bool{}
+			defining := map[*ast.Ident]bool{}
+			if as, ok := s.(*ast.AssignStmt); ok && len(as.Lhs) == 1 && len(as.Rhs) == 1 {
+				if id, ok := as.Lhs[0].(*ast.Ident); ok {
+					defining[id] = true
+					delete(aliases, id.Name) // rebound
+					if se, ok := as.Rhs[0].(*ast.SelectorExpr); ok && recvName != "" {
+						if x, ok := se.X.(*ast.Ident); ok && x.Name == recvName && tr.structs[recvStruct][se.Sel.Name] && tr.refFields[recvStruct+"."+se.Sel.Name] {
+							defer func(name string, p probe) { aliases[name] = p }(id.Name, probe{recv: recvName, field: se.Sel.Name})
+						}
+					}
+				}
+			}
 			markWrite := func(e ast.Expr) {
 				for {
 					switch x := e.(type) {
@@ -338,9 +362,19 @@ func instrumentAST(fset *token.FileSet, af *ast.File, tr *tracked, shimAsSync bo
 								return false
 							}
 						}
+					case *ast.CallExpr:
+						// a method call on a package-level variable may mutate it (shared hasher, cache, pool)
+						if se, ok := x.Fun.(*ast.SelectorExpr); ok {
+							if id, ok := se.X.(*ast.Ident); ok && tr.pkgVars[id.Name] && !locals[id.Name] {
+								add(probe{field: id.Name, write: true})
+							}
+						}
 					case *ast.Ident:
 						if tr.pkgVars[x.Name] && !locals[x.Name] && writes[ast.Expr(x)] {
 							add(probe{field: x.Name, write: true})
+						}
+						if a, ok := aliases[x.Name]; ok && !defining[x] {
+							add(probe{recv: a.recv, field: a.field, write: writes[ast.Expr(x)]})
 						}
 					}
 					return true
